@@ -782,7 +782,17 @@ namespace occa {
           vendor_ = (1 << vendorBit);
         }
 
-        io::write(outFilename, std::to_string(vendor_));
+        // Publish the result atomically (write to a temporary name, then rename):
+        // a process killed here, or one reading concurrently, must never see a
+        // truncated [output] file since its mere existence marks it as complete
+        io::stageFile(
+          outFilename,
+          false,
+          [&](const std::string &tempFilename) -> bool {
+            io::write(tempFilename, std::to_string(vendor_));
+            return true;
+          }
+        );
 
         return vendor_;
       }
